@@ -240,7 +240,7 @@ def base_store(S, spec):
               '/placement', '/running', '/scheduled', '/server.presence',
               '/servers', '/traits', '/blackedout.apps']:
         b.seed(p, None, 1)
-    b.nodes['/traits'][0] = []
+    b.nodes['/traits'][0] = list(spec.get('traits', []))
     b.nodes['/allocations'][0] = spec.get('allocations', [])
     b.nodes['/blackedout.apps'][0] = spec.get('apps_blacklist', [])
     for r in RACKS:
@@ -299,6 +299,8 @@ def base_store(S, spec):
                 man['data_retention_timeout'] = ap['retention']
             if ap.get('lease'):
                 man['lease'] = ap['lease']
+            if ap.get('traits'):
+                man['traits'] = list(ap['traits'])
             b.seed('/scheduled/' + name, man, 5)
         for j in ap.get('recorded', []):
             ct = S.int('placement_ctime%d_%d' % (i, j), 10, 10 ** 5)
